@@ -499,6 +499,22 @@ def r10_validity_flags(idx, r):
     r.require(not bad, "Block.restoreBackup:re-arms-derivedMustUpdate", f, msg="after the roll-back the derived shape must be marked for recomputation on every path, and the base restore must run")
 
 
+def r11_keep_comparison_total(idx, r):
+    """When the scope exits, a kept parameter's current value is compared with the restored one to decide whether to re-apply it.  The two may
+    be arrays of DIFFERENT shapes (the kept value was re-dimensioned inside the scope): an element-wise `!=` / `==` followed by .any()/.all()
+    raises ValueError there, which aborts StateRetainer.__exit__ half way - every object later in the traversal keeps its in-scope state."""
+    f = idx.method("armi.reactor.parameters.parameterCollections.ParameterCollection", "restoreBackup")
+    n = 0
+    for c in iter_calls(f.node):
+        if call_attr(c) in ("any", "all") and isinstance(c.func, ast.Attribute) and isinstance(c.func.value, ast.Compare) and any(isinstance(o, (ast.Eq, ast.NotEq)) for o in c.func.value.ops):
+            n += 1
+            r.violate("restoreBackup:array-comparison-cannot-raise", f, f"`{norm(c)}` compares the kept and the restored value element by element: for arrays of different shapes numpy raises, the exception "
+                      "leaves StateRetainer.__exit__ and the remaining objects are not rolled back (and the kept value is lost)", node=c)
+    tot = [c for c in iter_calls(f.node) if dotted(c.func) in ("np.array_equal", "numpy.array_equal", "np.array_equiv")]
+    r.require(n == 0 and bool(tot) or n == 0 and not any(isinstance(x, ast.Attribute) and x.attr == "ndarray" for x in ast.walk(f.node)), "restoreBackup:shape-safe-array-comparison", f,
+              msg="array-valued kept parameters are compared with a shape-safe predicate (np.array_equal)")
+
+
 def run(idx, chk):
     chk.explanation = (
         "C16: StateRetainer's enter/exit symmetry and traversal; every backUp/restoreBackup pair in the tree pushing and popping a stack with "
@@ -523,3 +539,5 @@ def run(idx, chk):
                  necessary="exactly the parameters named in the keep-set keep their new values; everything else is rolled back")
     chk.run_rule("R16.10", "the roll-back re-arms the validity flag of the block's derived-shape volume (it is not part of the saved state)", lambda r: r10_validity_flags(idx, r), floor=1,
                  necessary="after the scope every derived value (volumes included) is that of the restored state")
+    chk.run_rule("R16.11", "the comparison that decides whether a kept value is re-applied cannot raise for arrays of different shapes", lambda r: r11_keep_comparison_total(idx, r), floor=1,
+                 necessary="the roll-back completes for every object of the scope, whatever the kept values are")
